@@ -237,6 +237,56 @@ def check_combo(rec, site_key, combo, variant=0, label=None, reuse=True):
         rec.cls('layout_outer_product')
 
 
+BIG_SIZES = (65536 + 3, (1 << 20) + 17)  # just above two sizes at which implementations like to switch strategy
+
+
+def check_big(rec, site_key, variant=0, label=None):
+    """Size equivariance: one call on a long 1-d data operand equals the same call on its slices (bitwise)."""
+    fn, spec = reg.KERNELS[site_key]
+    site = label or site_key.split('/')[0]
+    names = list(spec)
+    data_arg = next((n for n in names if isinstance(spec[n], reg.A)), None)
+    if data_arg is None:
+        return
+    base = {n: _scalar_value(spec[n], 0, 0, 0, variant) for n in names}
+    for size in BIG_SIZES:
+        ramp = sc.linspace('x', 0.05, 3.0, size, unit='dimensionless', dtype='float64')
+        long_names = [n for n in names if isinstance(spec[n], reg.A)] if OPTIONS.get(site_key, {}).get('same_dims') else [data_arg]
+        bigs = {n: (ramp * base[n].astype('float64')).astype(base[n].dtype) for n in long_names}
+        args = dict(base)
+        args.update(bigs)
+        sub = {'size': size, 'variant': variant, 'data_operand': data_arg}
+        rec.states += 1
+        rec.transitions += 1
+        try:
+            res = _outputs(fn(**args))
+        except (sc.UnitError, sc.DTypeError):
+            rec.cls('layout_refused_like_scalar')
+            return
+        step = 50_000
+        for oname, var in res.items():
+            parts = []
+            for lo in range(0, size, step):
+                a2 = dict(base)
+                for n in long_names:
+                    a2[n] = bigs[n]['x', lo : lo + step].copy()
+                rec.transitions += 1
+                parts.append(_outputs(fn(**a2))[oname])
+            ref = sc.concat(parts, 'x') if parts[0].ndim else None
+            rec.validated += 1
+            if ref is None or var.dims != ref.dims:
+                continue  # output does not depend on the data operand
+            if not sc.identical(var, ref, equal_nan=True):
+                v, r = np.asarray(var.values), np.asarray(ref.values)
+                with np.errstate(invalid='ignore'):
+                    bad = np.flatnonzero(~((v == r) | (np.isnan(v) & np.isnan(r))).reshape(len(v), -1).all(axis=1))
+                k = int(bad[0]) if len(bad) else -1
+                rec.viol(site, 'long_array_differs_from_its_slices', f'{size} elements: output {oname!r} differs from the same call on slices of {step} at {len(bad)} positions, first index {k}: {v[k].tolist() if k >= 0 else None} vs {r[k].tolist() if k >= 0 else None}', output=oname, **sub)
+                return
+        rec.cls('long_array_equals_slices')
+        rec.nontrivial += 1
+
+
 def cases_for(sites, variants=(0,), chunk=25):
     """Case dicts {'kind': 'layout', 'site', 'combos', 'variant'} for the given registry keys."""
     out = []
@@ -245,9 +295,14 @@ def cases_for(sites, variants=(0,), chunk=25):
         for v in variants:
             for k in range(0, len(combos), chunk):
                 out.append({'kind': 'layout', 'site': site, 'combos': combos[k : k + chunk], 'variant': v})
+        if site not in SKIP and not site.startswith('conversion.beamline.two_theta/unit'):
+            for v in variants[:2]:
+                out.append({'kind': 'layout', 'site': site, 'combos': [], 'variant': v, 'big': True})
     return out
 
 
 def run_layout_case(case, rec):
     for combo in case['combos']:
         check_combo(rec, case['site'], combo, case.get('variant', 0))
+    if case.get('big'):
+        check_big(rec, case['site'], case.get('variant', 0))
